@@ -27,7 +27,7 @@ type panicSite struct {
 func C12(e *Env) {
 	r := e.R
 	e.analysedBase()
-	r.Rule("R12.1", "panic-site audit: every panic-capable construct of module code (explicit panic, Must* call, unchecked type assertion, index/slice expression, integer division, strings.Repeat, dereference of a nullable configuration pointer) is enumerated and discharged by a local rule: constant pattern that compiles; assertion under the strategy's own Supports; index equal to the range index of a slice of the same length; constant index under a len guard; library contract; paired Indent/EndIndent; MustExport of a primitive; nil test on the same pointer", 60)
+	r.Rule("R12.1", "panic-site audit: every panic-capable construct of module code (explicit panic, Must* call, unchecked type assertion, index/slice expression, integer division, strings.Repeat, dereference of a nullable configuration pointer) is enumerated and discharged by a local rule: constant pattern that compiles; assertion under the strategy's own Supports; index equal to the range index of a slice of the same length; constant index under a len guard; library contract; paired Indent/EndIndent; MustExport of a primitive; nil test on the same pointer", 40)
 	r.Rule("R12.2", "no unbounded recursion: the only cycles of the module's call graph go through Step.Run of an injected step (composite steps), whose nesting is bounded because the wiring of gontainer.go is acyclic", 1)
 	r.Rule("R12.3", "every loop is a range over a finite value or a counted loop whose bound is not changed in the body", 1)
 	r.Rule("R12.4", "strings.Repeat count ≥ 0: every string that can reach PrintAlignedLn is a constant (step names from Name() methods and wiring literals, marks, \" END\"), and the longest one plus the deepest indentation fits rowWidth", 1)
@@ -1029,6 +1029,9 @@ func edgeDominatesOrJoin(b *ssa.BasicBlock, onTrue bool, ins ssa.Instruction) bo
 
 // guardsNonNil: cond on `edge` implies ptr != nil.
 func guardsNonNil(cond ssa.Value, edge bool, ptr ssa.Value) bool {
+	if edge && predicateGuardsField(cond, ptr) {
+		return true
+	}
 	v, nonNilOnTrue, ok := nilTest(cond)
 	if !ok {
 		return false
@@ -1037,6 +1040,133 @@ func guardsNonNil(cond ssa.Value, edge bool, ptr ssa.Value) bool {
 		return false
 	}
 	return nonNilOnTrue == edge
+}
+
+// predicateGuardsField: cond is a call p(x) of a module predicate that can only return true when
+// x.F != nil, and ptr is the field F of that same x.
+func predicateGuardsField(cond ssa.Value, ptr ssa.Value) bool {
+	call, ok := cond.(*ssa.Call)
+	if !ok {
+		return false
+	}
+	g := call.Call.StaticCallee()
+	if g == nil || len(g.Blocks) == 0 || load.Current == nil || !load.Current.InModule(g) {
+		return false
+	}
+	// the field of ptr and its holder
+	var holder ssa.Value
+	field := ""
+	switch x := ptr.(type) {
+	case *ssa.UnOp:
+		if fa, ok := x.X.(*ssa.FieldAddr); ok && x.Op == token.MUL {
+			holder, field = fa.X, fieldName(fa)
+		}
+	case *ssa.Field:
+		holder, field = x.X, fieldNameT(x.X.Type(), x.Field)
+	}
+	if holder == nil || field == "" {
+		return false
+	}
+	for i, a := range call.Call.Args {
+		same := a == holder
+		if ld, ok := a.(*ssa.UnOp); ok && ld.Op == token.MUL && ld.X == holder {
+			same = true
+		}
+		if !same || i >= len(g.Params) {
+			continue
+		}
+		if trueImpliesFieldNonNil(g, g.Params[i], field) {
+			return true
+		}
+	}
+	return false
+}
+
+// trueImpliesFieldNonNil: every way for g to return true passes the non-nil edge of a test `prm.F != nil`.
+func trueImpliesFieldNonNil(g *ssa.Function, prm *ssa.Parameter, field string) bool {
+	isFieldOfParam := func(v ssa.Value) bool {
+		switch x := v.(type) {
+		case *ssa.Field:
+			return x.X == ssa.Value(prm) && fieldNameT(x.X.Type(), x.Field) == field
+		case *ssa.UnOp:
+			if fa, ok := x.X.(*ssa.FieldAddr); ok && fieldName(fa) == field {
+				// the parameter spilled to a local, or a pointer parameter
+				if fa.X == ssa.Value(prm) {
+					return true
+				}
+				if al, ok := fa.X.(*ssa.Alloc); ok {
+					for _, ref := range *al.Referrers() {
+						if st, ok := ref.(*ssa.Store); ok && st.Addr == al && st.Val == ssa.Value(prm) {
+							return true
+						}
+					}
+				}
+			}
+		}
+		return false
+	}
+	// blocks that are only reachable through the non-nil edge
+	nonNilRegion := func(b *ssa.BasicBlock) bool {
+		for _, blk := range g.Blocks {
+			iff, ok := blk.Instrs[len(blk.Instrs)-1].(*ssa.If)
+			if !ok {
+				continue
+			}
+			v, nonNilOnTrue, ok := nilTest(iff.Cond)
+			if !ok || !isFieldOfParam(v) {
+				continue
+			}
+			su := blk.Succs[1]
+			if nonNilOnTrue {
+				su = blk.Succs[0]
+			}
+			if len(su.Preds) == 1 && (su == b || su.Dominates(b)) {
+				return true
+			}
+		}
+		return false
+	}
+	var mayBeTrue func(v ssa.Value, at *ssa.BasicBlock, depth int) bool // true = "may be true outside the non-nil region"
+	mayBeTrue = func(v ssa.Value, at *ssa.BasicBlock, depth int) bool {
+		if depth > 6 {
+			return true
+		}
+		if nonNilRegion(at) {
+			return false
+		}
+		switch x := v.(type) {
+		case *ssa.Const:
+			return x.Value != nil && x.Value.String() == "true"
+		case *ssa.BinOp:
+			if w, nonNilOnTrue, ok := nilTest(x); ok && isFieldOfParam(w) {
+				return !nonNilOnTrue // `F == nil` is true exactly when nil
+			}
+			return true
+		case *ssa.Phi:
+			for i, ed := range x.Edges {
+				if mayBeTrue(ed, x.Block().Preds[i], depth+1) {
+					return true
+				}
+			}
+			return false
+		}
+		return true
+	}
+	n := 0
+	for _, b := range g.Blocks {
+		if b == g.Recover {
+			continue
+		}
+		ret, ok := b.Instrs[len(b.Instrs)-1].(*ssa.Return)
+		if !ok || len(ret.Results) != 1 {
+			continue
+		}
+		n++
+		if mayBeTrue(ret.Results[0], b, 0) {
+			return false
+		}
+	}
+	return n > 0
 }
 
 // ---- R12.2 ----
